@@ -107,9 +107,20 @@ def run_case(case):
         fsolve, _ = pipeline.get_lcm_function(model, "solve")
         fsim, _ = pipeline.get_lcm_function(model, "simulate")
         fboth, _ = pipeline.get_lcm_function(model, "solve_and_simulate")
-        sol_raw = [np.asarray(a) for a in fsolve(dsl.lcm_params(params))]
+        sol_jax = fsolve(dsl.lcm_params(params))  # the caller's own arrays, handed to simulate as they are
+        sol_raw = [np.asarray(a) for a in sol_jax]
         sol = [a / U for a in sol_raw]
-        df1 = unscale(simcheck.simulate_once(fsim, params, init, sol_raw, seed=seed))
+        df1 = unscale(simcheck.simulate_once(fsim, params, init, list(sol_jax), seed=seed))
+        if case["index"] % 2 == 0:
+            # the same arrays are used again afterwards: by a second simulate call and by the caller
+            try:
+                df1b = unscale(simcheck.simulate_once(fsim, params, init, list(sol_jax), seed=seed))
+                again = [np.asarray(a) for a in sol_jax]
+                cnt["c06_value_arrays_reused"] = 1
+                if simcheck.frames_equal(df1, df1b, tol=1e-12) or any(not np.array_equal(a, b, equal_nan=True) for a, b in zip(again, sol_raw)):
+                    res["violations"].append({"key": "value_arrays_changed_by_simulate", "what": "simulating twice with the same value arrays gives different frames, or the arrays passed in were changed by the call"})
+            except Exception as e:  # noqa: BLE001
+                res["violations"].append({"key": f"value_arrays_unusable_after_simulate|{type(e).__name__}", "what": f"the value arrays handed to simulate cannot be used again afterwards: {pipeline.exc_text(e)}"})
         p_shared = dsl.lcm_params(params)  # ONE params mapping for the solve_and_simulate function
         df2 = unscale(simcheck.simulate_once(fboth, params, init, None, seed=seed, p_obj=p_shared))
         if U != 1.0:
